@@ -14,7 +14,8 @@ func init() {
 		ID:    "C05",
 		Level: "model_checking",
 		Rule: "(a) breadth-first search over all sequences (depth 4, thorough 5) of refinement-builder calls (NotNull, Null, numeric lower/upper bounds over {-1,0,1,2,+-Inf,unknown} x inclusive/exclusive, NumberRangeInclusive, length bounds -1..3, CollectionLength, StringPrefix/StringPrefixFull over 7 prefixes) on 24 base values (unknown of every kind, already refined, known, null, DynamicVal, marked), " +
-			"with an analytic interval/prefix/length model advanced in lock-step; after every accepted call the value, its reported range and membership of 11-13 probe values are compared with the model; a history ends at the first rejected call; " +
+			"with an analytic interval/prefix/length model advanced in lock-step; after every accepted call the value, its reported range and membership of 11-13 probe values are compared with the model; a history ends at the first rejected call; the same histories again with a value built and kept after every call (earlier values keep printing the same); " +
+			"(a') every history of one or two calls on every base through Value.Refine()...NewValue() and through Value.RefineWith: the same rejection or the same value, so a contradiction with a known value is rejected whichever route states it; " +
 			"(b) every (prefix, continuation) pair over a 16-symbol alphabet of combining marks, jamo, emoji modifiers, joiners, regional indicators, CR/LF and ASCII delimiters: SafeKnownPrefix(p) and Refine().StringPrefix(p) must be NFC byte prefixes of NFC(p+s); " +
 			"states = builder record dump + model; non-trivial = every transition / every pair with non-empty prefix",
 		Assumptions: []string{
@@ -779,7 +780,87 @@ func runC05(c *Ctx) {
 			exploreE2(c, &refSys{base: base, ops: ops, snap: true}, depth-1, "refine[kept].")
 		}
 	}
+	c05Routes(c, all)
 	c05Prefixes(c)
+}
+
+// c05Routes: every way of stating constraints is the same function of (value, constraints).  Each
+// history of one or two builder calls is run through Value.Refine()...NewValue() and through
+// Value.RefineWith (the route function results take): both must reject, or both must accept and
+// return values that print the same - on unknown, known, null and marked bases alike, so a
+// contradiction with a known value is rejected whichever route states it.
+func c05Routes(c *Ctx, all []refOp) {
+	for _, base := range refBases() {
+		base := base
+		m := newRefModel(base.mk())
+		var ops []refOp
+		for _, o := range all {
+			if m.kind == 'd' || strings.IndexByte(o.kinds, m.kind) >= 0 {
+				ops = append(ops, o)
+			}
+		}
+		c.Unit(func(u *U) {
+			run := func(seq []refOp) {
+				u.Eval(1)
+				u.DistinctN(1)
+				names := ""
+				for _, o := range seq {
+					names += o.name + " ; "
+				}
+				outcome := func(f func(v cty.Value) cty.Value) (s string) {
+					defer func() {
+						if r := recover(); r != nil {
+							s = "rejected"
+						}
+					}()
+					return goStr(f(base.mk()))
+				}
+				viaBuilder := outcome(func(v cty.Value) cty.Value {
+					b := v.Refine()
+					for _, o := range seq {
+						o.apply(b)
+					}
+					return b.NewValue()
+				})
+				viaWith := outcome(func(v cty.Value) cty.Value {
+					return v.RefineWith(func(b *cty.RefinementBuilder) *cty.RefinementBuilder {
+						for _, o := range seq {
+							o.apply(b)
+						}
+						return b
+					})
+				})
+				viaSteps := outcome(func(v cty.Value) cty.Value {
+					for _, o := range seq {
+						o := o
+						v = v.RefineWith(func(b *cty.RefinementBuilder) *cty.RefinementBuilder { o.apply(b); return b })
+					}
+					return v
+				})
+				shape := base.name + " / routes"
+				if viaWith != viaBuilder {
+					u.Violation("refine.routes-differ", shape, fmt.Sprintf("history %son %s: Refine()...NewValue() gives %s, RefineWith gives %s", names, base.name, viaBuilder, viaWith))
+				}
+				// step by step the intermediate values may collapse to known values, after which a
+				// further consistent constraint is a no-op: only the accept / reject verdict of
+				// contradictions is compared, and only when the one-builder route rejects
+				if viaBuilder == "rejected" && viaSteps != "rejected" && len(seq) == 1 {
+					u.Violation("refine.routes-differ", shape, fmt.Sprintf("history %son %s: rejected through Refine()...NewValue() but accepted through RefineWith (%s)", names, base.name, viaSteps))
+				}
+				if viaBuilder == "rejected" {
+					u.Class("routes-rejected")
+				} else {
+					u.Class("routes-accepted")
+				}
+			}
+			for _, a := range ops {
+				run([]refOp{a})
+				for _, b := range ops {
+					run([]refOp{a, b})
+				}
+			}
+		})
+	}
 }
 
 // ---------------------------------------------------------------------------
